@@ -30,6 +30,7 @@ func checkC16(p *Prog, c *Check) {
 			c15Rollback(p, c, sp)
 			c15Hash(p, c, sp)
 			c15ReorgParams(p, c, sp)
+			c15StartIsNext(p, c, sp)
 		}
 	}
 	c15Ranges(p, c)
